@@ -93,18 +93,18 @@ impl SourceMap {
             .collect()
     }
 
-    pub fn move_offsets(&mut self, scope: SymbolIndex, new_scope: SymbolIndex, new_span: Span) {
+    /// Moves all offsets that were added since the map contained `first_offset` offsets (i.e. everything a macro invocation
+    /// emitted, including what was emitted from scopes nested in the macro) to a new scope and span
+    pub fn move_offsets(&mut self, first_offset: usize, new_scope: SymbolIndex, new_span: Span) {
         log::trace!(
-            "Trying to move offset from scope '{:?}' to scope '{:?}'",
-            scope,
+            "Trying to move offsets from index {} to scope '{:?}'",
+            first_offset,
             new_scope
         );
-        self.offsets.iter_mut().for_each(|offset| {
-            if offset.scope == scope {
-                log::trace!("Moved");
-                offset.scope = new_scope;
-                offset.span = new_span;
-            }
+        self.offsets.iter_mut().skip(first_offset).for_each(|offset| {
+            log::trace!("Moved");
+            offset.scope = new_scope;
+            offset.span = new_span;
         });
     }
 }
